@@ -64,6 +64,14 @@ Lemma K_par_ord_tasks_before_result : par_ord_tasks_before_result = true.
 Proof. reflexivity. Qed.
 Lemma K_par_ord_status_nonblocking : par_ord_status_nonblocking = true.
 Proof. reflexivity. Qed.
+Lemma K_par_ord_raise_log_nonblocking : par_ord_raise_log_nonblocking = true.
+Proof. reflexivity. Qed.
+Lemma K_par_worker_shape : par_worker_shape = true.
+Proof. reflexivity. Qed.
+Lemma K_par_hook_shape : par_hook_shape = true.
+Proof. reflexivity. Qed.
+Lemma K_par_queue_ctors : par_n_queue_ctor = 3%Z /\ par_n_simple_queue_ctor = 0%Z /\ par_n_try = 3%Z.
+Proof. repeat split; reflexivity. Qed.
 Lemma K_par_child_seed x : par_child_seed x = x.
 Proof. unfold par_child_seed; lia. Qed.
 Lemma K_par_n_global_rng_calls : par_n_global_rng_calls = 0%Z.
@@ -280,10 +288,20 @@ Lemma wstep_eq pid a (w : world) :
       match a, pc (wks w pid) with
       | APutLog id, WRun =>
           mkworld (rq w) (upd (wks w) pid (mkwk WRun None (lq (wks w pid) ++ [Some id])))
-      | APutResult, WRun =>
+      | APutBegin, WRun =>
+          match wres pid with
+          | Ok r => mkworld (rq w) (upd (wks w) pid (mkwk WPutting None (lq (wks w pid))))
+          | Err _ => w
+          end
+      | APutResult, WRun | APutResult, WPutting =>
           match wres pid with
           | Ok r => mkworld (rq w ++ [(pid, r)]) (upd (wks w) pid (mkwk WPut None (lq (wks w pid))))
           | Err _ => w
+          end
+      | ARaise, WRun =>
+          match wres pid with
+          | Ok _ => w
+          | Err _ => mkworld (rq w) (upd (wks w) pid (mkwk WRun (Some 1%Z) (lq (wks w pid))))
           end
       | APutEnd, WPut =>
           mkworld (rq w) (upd (wks w) pid (mkwk WDone None (lq (wks w pid) ++ [None])))
@@ -297,7 +315,21 @@ Lemma wstep_eq pid a (w : world) :
   else w.
 Proof.
   unfold M_Parallel.wstep, wstep_gen.
-  rewrite K_par_ord_tasks_before_result, K_par_ord_status_nonblocking. reflexivity.
+  rewrite K_par_ord_tasks_before_result, K_par_ord_status_nonblocking, K_par_ord_raise_log_nonblocking.
+  reflexivity.
+Qed.
+
+Lemma putting_false (w : @world R) :
+  putting np w = false <-> (forall p, 1 <= p <= np -> pc (wks w p) <> WPutting).
+Proof.
+  unfold putting, pids. split.
+  - intros H p Hp Hc.
+    assert (Hex : existsb (fun q => is_putting (pc (wks w q))) (seq 1 np) = true).
+    { apply existsb_exists. exists p. split; [apply in_seq; lia|now rewrite Hc]. }
+    congruence.
+  - intro H. destruct (existsb _ (seq 1 np)) eqn:E; [|reflexivity].
+    apply existsb_exists in E as [p [Hp Hq]]. apply in_seq in Hp.
+    exfalso. apply (H p); [lia|]. destruct (pc (wks w p)); try discriminate. reflexivity.
 Qed.
 
 Lemma all_ended_true (w : world) :
@@ -334,7 +366,7 @@ Lemma mstep_eq (w : world) (m : mst) :
       match rq w with
       | (pid, r) :: rest =>
           Run (mkworld rest (wks w)) (mkmst (it m) (DrainA pid) (dset pid r (pmap m)))
-      | [] => Run w (mkmst (it m) (PollC ae) (pmap m))
+      | [] => if putting np w then Run w m else Run w (mkmst (it m) (PollC ae) (pmap m))
       end
   | PollC ae =>
       if any_died w then Fin (Fail ChildDied)
@@ -405,8 +437,11 @@ Definition draining (m : @mst R) : option nat :=
 Definition consumed (m : @mst R) : nat :=
   match ph m with DrainA _ | DrainB _ _ => S (it m) | _ => it m end.
 
+(* the result record of the worker is completely in the pipe *)
+Definition delivered (p : wpc) : Prop := p = WPut \/ p = WDone.
+
 Definition entry_ok (w : @world R) (pid : nat) (r : list R) : Prop :=
-  good_pid pid /\ wres pid = Ok r /\ pc (wks w pid) <> WRun.
+  good_pid pid /\ wres pid = Ok r /\ delivered (pc (wks w pid)).
 
 Record Inv (w : @world R) (m : @mst R) : Prop := mkInv {
   inv_rq : forall pid r, In (pid, r) (rq w) -> entry_ok w pid r;
@@ -423,7 +458,7 @@ Record Inv (w : @world R) (m : @mst R) : Prop := mkInv {
 }.
 
 Lemma entry_ok_mono w w' q r :
-  (forall p, pc (wks w p) <> WRun -> pc (wks w' p) <> WRun) ->
+  (forall p, delivered (pc (wks w p)) -> delivered (pc (wks w' p))) ->
   entry_ok w q r -> entry_ok w' q r.
 Proof. intros H [a [b c]]. split; [exact a|split; [exact b|apply H; exact c]]. Qed.
 
@@ -441,7 +476,7 @@ Qed.
 
 Lemma Inv_mono w w' m :
   rq w' = rq w ->
-  (forall p, pc (wks w p) <> WRun -> pc (wks w' p) <> WRun) ->
+  (forall p, delivered (pc (wks w p)) -> delivered (pc (wks w' p))) ->
   Inv w m -> Inv w' m.
 Proof.
   intros Hrq Hpc [H1 H2 H3 H4 H5 H6 H7]. constructor; try assumption.
@@ -451,32 +486,21 @@ Proof.
   - now rewrite Hrq.
 Qed.
 
-Lemma Inv_worker w m pid a : Inv w m -> Inv (wstep pid a w) m.
+Lemma Inv_put w m pid r :
+  Inv w m -> good_pid pid -> wres pid = Ok r -> ~ delivered (pc (wks w pid)) ->
+  Inv (mkworld (rq w ++ [(pid, r)]) (upd (wks w) pid (mkwk WPut None (lq (wks w pid))))) m.
 Proof.
-  intro HI. rewrite wstep_eq.
-  destruct ((1 <=? pid) && (pid <=? np)) eqn:Hg; [|exact HI].
-  apply andb_prop in Hg as [Hg1 Hg2]. apply Nat.leb_le in Hg1, Hg2.
-  destruct (exitc (wks w pid)) eqn:He; [exact HI|].
-  assert (Hsame : forall k', pc k' = pc (wks w pid) \/ pc k' <> WRun ->
-            Inv (mkworld (rq w) (upd (wks w) pid k')) m).
-  { intros k' Hk. apply (Inv_mono w); [reflexivity| |exact HI]. cbn. intros p Hp.
-    destruct (Nat.eq_dec p pid) as [->|Hne].
-    - rewrite upd_eq. destruct Hk as [->|Hk]; assumption.
-    - now rewrite upd_neq. }
-  destruct a as [id| | | |c]; destruct (pc (wks w pid)) eqn:Hpc; try exact HI;
-    try (apply Hsame; cbn; (now left) || (right; discriminate)).
-  (* APutResult at WRun *)
-  destruct (wres pid) as [r|e] eqn:Hw; [|exact HI].
+  intros HI Hg Hw Hnd.
   destruct HI as [H1 H2 H3 H4 H5 H6 H7].
-  assert (Hst : forall p, pc (wks w p) <> WRun ->
-                 pc (upd (wks w) pid (mkwk WPut None (lq (wks w pid))) p) <> WRun).
+  assert (Hst : forall p, delivered (pc (wks w p)) ->
+                 delivered (pc (upd (wks w) pid (mkwk WPut None (lq (wks w pid))) p))).
   { intros p Hp. destruct (Nat.eq_dec p pid) as [->|Hne];
-      [rewrite upd_eq; discriminate|now rewrite upd_neq]. }
+      [rewrite upd_eq; now left|now rewrite upd_neq]. }
   constructor; cbn [rq wks]; try assumption.
   - intros q r' Hin. apply in_app_or in Hin as [Hin|[E|[]]].
     + apply (entry_ok_mono w); [exact Hst|now apply H1].
-    + inversion E; subst. split; [split; assumption|]. split; [exact Hw|].
-      cbn [wks]. rewrite upd_eq. discriminate.
+    + inversion E; subst. split; [exact Hg|]. split; [exact Hw|].
+      cbn [wks]. rewrite upd_eq. now left.
   - intros q r' Hin. destruct (H2 q r' Hin) as [?|He']; [now left|right].
     apply (entry_ok_mono w); [exact Hst|exact He'].
   - rewrite map_app. cbn [map fst]. rewrite <- app_assoc. cbn [app].
@@ -484,8 +508,31 @@ Proof.
     + apply Add_app.
     + split; [exact H3|]. intro Hin. apply in_app_or in Hin as [Hin|Hin];
         apply in_map_iff in Hin as [[q r'] [Hq Hin]]; cbn in Hq; subst q.
-      * destruct (H1 pid r' Hin) as [_ [_ Hc]]. now apply Hc.
-      * destruct (H2 pid r' Hin) as [[Hz _]|[_ [_ Hc]]]; [lia|now apply Hc].
+      * destruct (H1 pid r' Hin) as [_ [_ Hc]]. now apply Hnd.
+      * destruct (H2 pid r' Hin) as [[Hz _]|[_ [_ Hc]]]; [unfold good_pid in Hg; lia|now apply Hnd].
+Qed.
+
+Lemma Inv_worker w m pid a : Inv w m -> Inv (wstep pid a w) m.
+Proof.
+  intro HI. rewrite wstep_eq.
+  destruct ((1 <=? pid) && (pid <=? np)) eqn:Hg; [|exact HI].
+  apply andb_prop in Hg as [Hg1 Hg2]. apply Nat.leb_le in Hg1, Hg2.
+  destruct (exitc (wks w pid)) eqn:He; [exact HI|].
+  assert (Hsame : forall k', (delivered (pc (wks w pid)) -> delivered (pc k')) ->
+            Inv (mkworld (rq w) (upd (wks w) pid k')) m).
+  { intros k' Hk. apply (Inv_mono w); [reflexivity| |exact HI]. cbn. intros p Hp.
+    destruct (Nat.eq_dec p pid) as [->|Hne].
+    - rewrite upd_eq. now apply Hk.
+    - now rewrite upd_neq. }
+  assert (Hg : good_pid pid) by (split; assumption).
+  destruct a as [id| | | | | |c]; destruct (pc (wks w pid)) eqn:Hpc; try exact HI;
+    try (destruct (wres pid) as [r|e] eqn:Hw; try exact HI);
+    try (apply Hsame; cbn [pc]; intro Hd;
+         solve [exact Hd | right; reflexivity | left; reflexivity | destruct Hd; discriminate]).
+  - (* APutResult at WRun *)
+    apply Inv_put; auto. rewrite Hpc. intros [Hd|Hd]; discriminate.
+  - (* APutResult at WPutting *)
+    apply Inv_put; auto. rewrite Hpc. intros [Hd|Hd]; discriminate.
 Qed.
 
 Lemma Inv_master w m w' m' : Inv w m -> mstep w m = Run w' m' -> Inv w' m'.
@@ -498,7 +545,9 @@ Proof.
     destruct (Nat.ltb_spec i np) as [Hlt|Hge]; intro E; inversion E; subst; clear E;
       constructor; unfold consumed, draining; cbn [ph it pmap]; auto; try lia; try (intros p Hp; discriminate).
   - (* PollB *)
-    destruct (rq w) as [|[pid r] rest] eqn:Hrq; intro E; inversion E; subst; clear E.
+    destruct (rq w) as [|[pid r] rest] eqn:Hrq;
+      [destruct (putting np w)|]; intro E; inversion E; subst; clear E.
+    + constructor; unfold consumed, draining; cbn [ph it pmap]; auto; try rewrite Hrq; auto; try (intros p Hp; discriminate).
     + constructor; unfold consumed, draining; cbn [ph it pmap]; auto; try rewrite Hrq; auto; try (intros p Hp; discriminate).
     + cbn [map fst app] in H3. inversion H3 as [|x xs Hnot ND]; subst.
       assert (Hfresh : ~ In pid (map fst pm)) by (intro Hc; apply Hnot; apply in_or_app; now right).
@@ -531,8 +580,8 @@ Proof.
       (forall q r', In (q, r') pm -> (q = 0 /\ r' = r0) \/
          entry_ok (mkworld (rq w) (upd (wks w) pid (mkwk (pc (wks w pid)) (exitc (wks w pid)) rest))) q r')).
     { intro rest.
-      assert (Hpc : forall p, pc (wks w p) <> WRun ->
-                pc (upd (wks w) pid (mkwk (pc (wks w pid)) (exitc (wks w pid)) rest) p) <> WRun).
+      assert (Hpc : forall p, delivered (pc (wks w p)) ->
+                delivered (pc (upd (wks w) pid (mkwk (pc (wks w pid)) (exitc (wks w pid)) rest) p))).
       { intros p Hp. destruct (Nat.eq_dec p pid) as [->|Hne]; [now rewrite upd_eq|now rewrite upd_neq]. }
       split; intros q r' Hin.
       - apply (entry_ok_mono w); [exact Hpc|now apply H1].
@@ -596,7 +645,7 @@ Proof.
   intros HI. rewrite mstep_eq.
   destruct (ph m) as [|ae|ae|pid|pid e|] eqn:Hph.
   - destruct (it m <? np); discriminate.
-  - destruct (rq w) as [|[? ?] ?]; discriminate.
+  - destruct (rq w) as [|[? ?] ?]; [destruct (putting np w)|]; discriminate.
   - destruct (any_died w); [discriminate|]. destruct ae; discriminate.
   - destruct ((1 <=? pid) && (pid <=? np)); discriminate.
   - destruct (lq (wks w pid)) as [|[?|] ?]; try discriminate. destruct e; discriminate.
